@@ -3,6 +3,8 @@
 HOOK_COMMITS = ["8eb6fb7e966ea020d53ffa53eb464d5e25f195d3"]
 
 ENGINES = [
+    dict(name="partition", path="harness/cmd/h/eng_partition.go", serves_properties=["C02", "C04"],
+         kind_free_text="differential: real partition state machine (marshalled entries) vs finite-map specification and graph model; snapshot/restore at every cut; reference-map oracle"),
     dict(name="hnsw", path="harness/cmd/h/eng_hnsw.go", serves_properties=["C01", "C07"],
          kind_free_text="differential: real index.Hnsw vs Lean model, whole graph after every op in the order-independent regime; reference-map oracle + structural invariant in the wide regime"),
     dict(name="pq", path="harness/cmd/h/eng_pq.go", serves_properties=["C19"],
@@ -16,6 +18,16 @@ META = {
         technique="Lean 4 proof (index invariant by induction over insert/remove/save+load histories; search soundness over abstract lawful queues, instantiated at the proved model of container/heap) + exact whole-graph differential tie",
         text="search_ok_reachable (lean/Anndb/Props/C01.lean): for every history of inserts, removes (hence updates) and snapshot reloads from the empty index, every query and k, every configuration, every distance function and every lawful queue, search returns only live items with their current metadata and dist(query, current vector) as score, ascending, duplicate-free, at most k, non-empty on a non-empty index. good_run: the invariant (entry point present iff non-empty and live; tombstone iff not current incarnation) holds in every reachable state. The model is index/hnsw.go line by line; engine hnsw demands the identical graph and results from the real index after every operation in the order-independent regime and runs the property's predicate plus the structural invariant directly on the real index in the wide regime (ties, small beams, extension, M=16).",
         note="Trusted: Lean kernel; goextract; the hnsw engine's generators; Go runtime. Not modelled: concurrent use (C13); NaN scores. The dataset-level merge is C09's.",
+    ),
+    "C02": dict(
+        technique="Lean 4 refinement proof (partition state machine over the HNSW model refines a finite map, counters in UInt64) + exact differential tie on marshalled log entries",
+        text="partition_refines_map (lean/Anndb/Props/C02.lean): for every log of the six change kinds from the empty partition, every notified outcome equals the finite-map specification's and the final state refines it; len_eq_live and bytes_exact give the counters (UInt64, subtraction as written in the code) = number of live ids and exactly the live items' data bytes with no wrap; spec_* lemmas state what the map does (insert/exists, remove/update not found, merge with new keys winning). The proof goes through effect lemmas showing that all HNSW linking is invisible through the abstraction id -> (vector, metadata, level). Engine partition demands identical outcome / Len / raw byte counter / contents from the real partition after every marshalled entry, and the identical graph in the order-independent regime.",
+        note="Trusted: Lean kernel; protobuf round-trip; generators. Not modelled: the float link estimate in BytesSize (bounded check in the harness); aliasing of Go metadata maps (the model's metadata is immutable — mutation of a stored vertex's map is caught by the raw byte-counter comparison).",
+    ),
+    "C04": dict(
+        technique="Lean 4 proof (determinism corollaries of the refinement: outcomes and contents are functions of the abstract map; snapshot = reload preserves the refinement) + multi-replica differential run with restore at every cut",
+        text="replicas_agree / snapshot_cut / restart_replay (lean/Anndb/Props/C04.lean): any two replicas related to the same map — differing in queue implementation, metric, parameters, fallback choice and graph — report the same outcome for every entry and hold the same contents and counters; restoring a snapshot taken at any cut and applying the suffix equals applying the whole log. Engine partition feeds byte-identical marshalled entries to real stand-alone partitions, restoring the real snapshot at every cut into fresh and used replicas, and compares outcomes, contents and counters pairwise and against the model.",
+        note="Trusted: as C02; Hnsw.Save/Load's byte format is C08's subject — here its effect on the state is Index.reload, and the real Save/Load is exercised at every cut.",
     ),
     "C19": dict(
         technique="Lean 4 proof (heap invariant by induction over op sequences; bag refinement) + exact differential tie to utils.PriorityQueue + regenerated shape fact",
